@@ -1,2 +1,38 @@
+import PelProofs.Hlog
+import PelGen.Live
+/-
+  C16 — History logs show a full hex dump and exactly the non-zero fields.
+-/
 namespace Pel.C16
+
+/-- ★ lines 2 … 2+⌈|b|/16⌉ are the hex dump of all the bytes, and it parses back to them -/
+theorem dump_lossless (fields : List HlogField) (b : Bytes) (hb : ∀ x ∈ b, x < 256) (hlen : b.length ≤ 2 ^ 32) :
+    (parseHlog fields b).take 2 = [s "Hex Dump", s "--------"] ∧
+    ((parseHlog fields b).drop 2).take (ceilDiv b.length 16) = hexdump16 b ∧
+    parseDump fmtDefault (hexdump16 b) = b := by
+  rw [parseHlog_eq]
+  refine ⟨rfl, ?_, parseDump_hexdump16 b hb hlen⟩
+  simp only [List.drop_succ_cons, List.drop_zero]
+  exact List.take_left' (hexdump16_length b)
+
+/-- after the dump: a blank line, the two heading lines, then the field lines -/
+theorem layout (fields : List HlogField) (b : Bytes) :
+    (parseHlog fields b).drop (2 + ceilDiv b.length 16) =
+      [[], s "Non-Zero Field Values", s "---------------------"] ++ hlogFields fields b := by
+  rw [parseHlog_eq, Nat.add_comm 2]
+  simp only [List.drop_succ_cons]
+  exact List.drop_left' (hexdump16_length b)
+
+/-- ★ the cursor loop with its `break` is the declarative rule: fields are consumed contiguously from offset 0
+    (offset = sum of the preceding widths), listing stops at the first field that does not fit, and a field
+    is listed iff its big-endian value is non-zero, shown zero-padded to twice its width -/
+theorem fields_spec (fields : List HlogField) (b : Bytes) (hb : ∀ x ∈ b, x < 256) :
+    hlogFields fields b = specHlogFields fields b := by
+  exact hlogFields_eq_spec fields b hb
+
+/-- the shown value has exactly `2·size` digits and parses back to the field's value -/
+theorem value_roundtrip (size : Nat) (bs : Bytes) (hlen : bs.length = size) (hb : ∀ x ∈ bs, x < 256) :
+    (hexFix (2 * size) (fromBE bs)).length = 2 * size ∧ parseHexText (hexFix (2 * size) (fromBE bs)) = fromBE bs := by
+  exact ⟨hexFix_length _ _, parseHexText_hexFix _ _ (fromBE_lt_16 size bs hlen hb)⟩
+
 end Pel.C16
